@@ -6,6 +6,7 @@ package main
 // assumption, so the resulting quantifier-free query is weaker: unsat still discharges.
 
 import (
+	"math/big"
 	"strings"
 )
 
@@ -102,6 +103,50 @@ func (q quantAssume) matches(text string, seen map[string]bool) []string {
 		return nil
 	}
 	var res []string
+	// pattern f(v + c): any occurrence f(X + d) gives the instance v := X + (d - c)
+	if strings.HasSuffix(prefix, "(bvadd ") && strings.HasPrefix(suffix, " #x") {
+		end := strings.Index(suffix[1:], ")")
+		if end > 0 {
+			cHex := suffix[3 : 1+end]
+			rest := suffix[1+end+1:] // after the closing paren of bvadd
+			c, ok := new(big.Int).SetString(cHex, 16)
+			if ok {
+				for from := 0; ; {
+					k := strings.Index(text[from:], prefix)
+					if k < 0 {
+						break
+					}
+					at := from + k + len(prefix)
+					from = from + k + 1
+					x, n := readSexp(text, at)
+					if x == "" || n >= len(text) || text[n] != ' ' {
+						continue
+					}
+					d, n2 := readSexp(text, n+1)
+					if !strings.HasPrefix(d, "#x") || n2 >= len(text) || text[n2] != ')' || !strings.HasPrefix(text[n2+1:], rest) {
+						continue
+					}
+					dv, ok := new(big.Int).SetString(d[2:], 16)
+					if !ok || strings.Contains(x, "!q") {
+						continue
+					}
+					diff := new(big.Int).Sub(dv, c)
+					width := 4 * len(d[2:])
+					diff = bvNorm(diff, width)
+					inst := x
+					if diff.Sign() != 0 {
+						inst = "(bvadd " + x + " " + BVConst(diff, width, true).E + ")"
+					}
+					if !seen[inst] {
+						seen[inst] = true
+						res = append(res, inst)
+					}
+				}
+				// a bare f(X) also matches with v := X - c
+				return res
+			}
+		}
+	}
 	for from := 0; ; {
 		k := strings.Index(text[from:], prefix)
 		if k < 0 {
